@@ -192,7 +192,8 @@ Proof.
   - apply map_ext_in. intros k Hin. rewrite Forall_forall in Hk, Hb.
     fold (pub_packet_body k). symmetry. apply fp_eq_rfc; auto.
   - apply map_ext_in. intros k Hin. rewrite Forall_forall in Hk.
-    symmetry. apply fp_public_only; auto.
+    symmetry. apply fp_public_only; [auto|reflexivity|reflexivity|].
+    unfold pubkey_pkt. cbn [k_mat]. destruct (Hk k Hin) as [_ [_ Hm]]. symmetry. apply pub_mat_wf. exact Hm.
   - destruct Hp as [Hp _]. unfold pubkey_of. rewrite Hp. cbn [t_uids t_sigs t_subs].
     split; [reflexivity|]. split; [reflexivity|]. rewrite map_map. reflexivity.
 Qed.
@@ -232,4 +233,29 @@ Proof.
   destruct (action_has_flags a && negb (ks_flag_ok st) && ks_require_flags st); [discriminate|].
   cbn in Ha. destruct Ha as [<-|[<-|[<-|[<-|[<-|[<-|[]]]]]]]; cbn [action_conds check_attributes attr_val];
     rewrite Hp, Hpr, Hc; cbn; discriminate.
+Qed.
+
+(* ---------- the fuel the driver uses (one more than the number of octets) always suffices ---------- *)
+Lemma pkt_emit_nonempty p bs : pkt_emit p = Some bs -> (1 <= length bs)%nat.
+Proof.
+  unfold pkt_emit, header_emit. cbn [h_lenfmt h_tag h_llen h_len].
+  destruct (negb (p_fmt p =? 0)).
+  - intros H. inversion H. rewrite !app_length, length_int_to_bytes. lia.
+  - destruct (code_of_llen _); [|discriminate]. intros H. inversion H. rewrite !app_length, length_int_to_bytes. lia.
+Qed.
+
+Lemma emit_all_length l : forall bs, emit_all l = Some bs -> (length l <= length bs)%nat.
+Proof.
+  induction l as [|p l IH]; intros bs H; [cbn; lia|].
+  cbn [emit_all] in H. destruct (pkt_emit p) as [a|] eqn:Ea; [|discriminate].
+  destruct (emit_all l) as [b|] eqn:Eb; [|discriminate]. inversion H; subst.
+  pose proof (pkt_emit_nonempty p a Ea). pose proof (IH b eq_refl). rewrite app_length. cbn [length]. lia.
+Qed.
+
+Theorem pub_export_parse_fuel t : wf_tkey t -> all_private t ->
+  exists bs, export (pubkey_of t) = Some bs /\
+    parse_packets (S (length bs)) bs = Some (map view (export_pkts (pubkey_of t))).
+Proof.
+  intros H Hp. destruct (pub_export_parse t H Hp) as [bs [E P]]. exists bs. split; [exact E|].
+  apply P. pose proof (emit_all_length _ _ E). lia.
 Qed.
